@@ -20,8 +20,6 @@ var clock struct {
 	ticks  int
 }
 
-var clockBase = time.Date(2026, 3, 4, 5, 6, 7, 0, time.UTC)
-
 func resetClock(s Schedule) {
 	clock.mu.Lock()
 	defer clock.mu.Unlock()
@@ -32,7 +30,9 @@ func resetClock(s Schedule) {
 		clock.stepMS, _ = strconv.ParseInt(s.Clock[len("slow:"):], 10, 64)
 	}
 	clock.rng = s.Seed*0x9e3779b97f4a7c15 + 0x1234567
-	clock.now = clockBase
+	// simulated time starts at the machine's time of the request: it stays comparable with the
+	// modification times of the files of the world (no absolute time reaches any output)
+	clock.now = time.Now()
 	clock.reads, clock.ticks = 0, 0
 }
 
